@@ -13,7 +13,7 @@ ID = "C10"
 LEAN_MODULE = "Ctrmml.Properties.C10"
 THEOREMS = ["C10_unique_data_spec", "C10_seq_bytes_unchanged", "C10_relocation_sound", "C10_song_numbering",
             "C10_unique_string_terminates", "C10_identifiers_unique_valid", "C10_linker_idempotent_query",
-            "C10_pcm_region_sound_partial", "C10_offset_window_counterexample"]
+            "C10_pcm_region_sound_partial", "C10_offset_window_regression"]
 LEVEL = "proof"
 STREAM = "link.out"
 CHUNK = 20
@@ -31,8 +31,7 @@ EXPLANATION = ("theorems over Model/Linker + Spec/Link for all histories; the mo
                "identifiers) is applied to the implementation's answers; the byte path is compared with the direct RIFF-object path")
 ASSUMPTIONS = ["linked banks below 2 GiB (int offset in get_seq_data), MDS files below 4 GiB",
                "\"C\" locale character classes; bytes >= 0x80 in names are dropped (glibc tables)",
-               "binary32 rounding of rate/2187.5 never crosses a rounding boundary for integer rates (checked on every boundary rate)",
-               "partial: PCM headers with a non-zero start offset are excluded from pcm_region_sound (known finding D11)"]
+               "binary32 rounding of rate/2187.5 never crosses a rounding boundary for integer rates (checked on every boundary rate)"]
 TRUSTED = ["Spec/Link.lean (MDS reader, bank resolver, group symbol and order, header reader)"]
 TECHNIQUE = "Lean 4 proof (invariants over linker histories, layout lemmas, fuel bound for unique_string) + differential correspondence model<->mdsdrv.cpp + spec resolver on the real output"
 LEVEL_TEXT = ("Machine-checked theorems over a Lean model of MDSDRV_Linker: add_unique_data stores identical data once and never merges "
@@ -40,8 +39,8 @@ LEVEL_TEXT = ("Machine-checked theorems over a Lean model of MDSDRV_Linker: add_
               "bytes unchanged outside its pointer slots, every slot holds (flag bit kept) the offset of a bank entry byte-identical to what "
               "the song carried; songs are numbered from 1 in group-key order then input order and header counts match; unique_string "
               "terminates and the generated identifiers are pairwise distinct valid symbols with MIN/MAX bracketing each group; "
-              "get_seq_data is a function of the songs added (queries leave no trace). The PCM-region theorem is partial (start offset 0, "
-              "known finding D11) and rests on C14's allocator invariant.")
+              "get_seq_data is a function of the songs added (queries leave no trace). The PCM-region theorem (any start offset, since the "
+              "repair of D11) is a single re-homing step on C14's allocator invariant; its composition over whole histories is not proved.")
 LEVEL_NOTE = ("Trusted: Lean kernel; Model/Linker.lean (+ Model/Riff, Model/Wave), tied to mdsdrv.cpp by differential testing only; "
               "Spec/Link.lean; the converter is not modelled here (its real output is the input). See Properties/C10.lean for the "
               "exact hypotheses of each theorem.")
@@ -310,7 +309,7 @@ def corpus():
     }
     for k, v in bad.items():
         out.append((link_req([("a", ok), ("x", v)]), ("corpus", "malformed", "malformed-" + k)))
-    # D11 (known finding): a PCM header with a start offset is re-homed with the bytes before the window
+    # D11 (repaired; regression): a PCM header with a start offset used to be re-homed with the bytes before the window
     out.append((link_req([("a", mds(seq=SEQ0, dblk=[(b"pcmh", 0, sample(0, 4, 12))], pcmd=bytes(range(16, 48))))]), ("corpus", "D11-start-offset")))
     # a sample equal to a stored one plus a zero tail, then a third sample: the longer sample must
     # not be matched against unallocated (zero) rom behind the stored one
@@ -448,7 +447,7 @@ def cases(rng, tier):
     for k in range(60 if quick else 900):
         ns = rng.choice([1, 2, 3, 4, 6])
         songs, tags = [], set(["raw", "songs-%d" % ns])
-        d11 = rng.random() < 0.05
+        d11 = rng.random() < 0.25   # PCM headers with start offsets (D11, repaired)
         for i in range(ns):
             f, t = raw_song(rng, d11=d11)
             tags |= t
@@ -513,8 +512,6 @@ def finding_key(case, impl, judge):
     if impl.startswith("crash") or impl == "timeout" or impl.startswith("uncaught"):
         m = re.search(r"(\w+\.cpp:\d+)", impl)
         return "crash:" + (m.group(1) if m else (impl.split(" ")[1] if " " in impl else impl))
-    if judge.startswith("fail d11:offset-window"):
-        return "d11:offset-window"
     if judge.startswith("fail"):
         w = judge.split()
         what = re.sub(r"\d+", "N", " ".join(w[2:6]))
